@@ -79,7 +79,7 @@ Proof.
   - eexists. vm_compute. reflexivity.
   - eexists. vm_compute. reflexivity.
   - eexists. split; [vm_compute; reflexivity|].
-    exists "a", "c", 4%Q, 2%Q, 2%Q. repeat split; try (vm_compute; auto 20; fail).
+    exists "a", "c", 4%Q, (4 # 2)%Q, (4 # 2)%Q. repeat split; try (vm_compute; auto 20; fail).
     intros x Hx. vm_compute in Hx.
     repeat (destruct Hx as [<-|Hx]; [vm_compute; discriminate|]). destruct Hx.
 Qed.
